@@ -268,10 +268,18 @@ theorem translated_accounted : dnsLoopsTranslated =
     [("packet.decodeName", "genDecodeName"), ("packet.(DNS).IsValid", "genDNS_IsValid"), ("packet.(DNS).QDCount", "genDNS_QDCount"),
      ("packet.DecodeQuestion", "genDecodeQuestion"), ("packet.(*DNSEntry).decodeRRs", "genDNSEntry_decodeRRs"),
      ("packet.(DNS).ANCount", "genDNS_ANCount"), ("packet.(*DNSEntry).DecodeAnswers", "genDNSEntry_DecodeAnswers"),
-     ("packet.encodeName", "genEncodeName"), ("packet.EncodeDNSQuery", "genEncodeDNSQuery"), ("packet.encode", "genEncode")] := by decide
+     ("packet.encodeName", "genEncodeName"), ("packet.EncodeDNSQuery", "genEncodeDNSQuery"), ("packet.encode", "genEncode"),
+     ("packet.NewDNSEntry", "genNewDNSEntry")] := by decide
 
-/-- … none is refused -/
-theorem untranslated_accounted : dnsLoopsUntranslated = [] := by decide
+/-- … none of layer_dns.go is refused; the byte-level helpers and the Process* handlers of handlers/dns_naming offered to
+    this translator (builder M) are refused, each with its first offending construct in `dnsLoopsUntranslated`
+    ([]string / NameEntry results, string concatenation, `i = i + 2`, the handler receiver): they stay with the
+    correspondence run; ProcessDNS / DNSFind are translated by loops_naming.go (Props/C17HandlerTie) -/
+theorem untranslated_accounted : dnsLoopsUntranslated.map (·.1) =
+    ["dns_naming.encodeNBNSName", "dns_naming.decodeNBNSName", "dns_naming.parseNodeNameArray",
+     "dns_naming.processNBNSNodeStatusResponse", "dns_naming.(*DNSHandler).ProcessNBNS", "dns_naming.(*DNSHandler).ProcessMDNS",
+     "dns_naming.processSSDPNotify", "dns_naming.processSSDPSearchRequest", "dns_naming.processUserAgent",
+     "dns_naming.processSSDPResponse", "dns_naming.(*DNSHandler).ProcessSSDP"] := by decide
 
 /-- the fuel the translator hands to the loops and to the pointer recursion: validated by the ties above (a smaller
     measure would make the generated function `.hang` where the model returns) -/
@@ -283,7 +291,7 @@ theorem fuels_accounted : dnsLoopFuels =
 
 /-- the assumptions of the translation (design_notes/bG.md reviews each) -/
 theorem assumptions_accounted : dnsLoopAssumptions.map (·.1) =
-    ["appendValue", "capEqLen", "errValuesDropped", "intNoOverflow", "logsDropped", "nilIsEmpty", "noAlias", "ptrInOut"] := by decide
+    ["appendValue", "capEqLen", "errValuesDropped", "intNoOverflow", "logsDropped", "nilIsEmpty", "noAlias", "ptrInOut", "recvState"] := by decide
 
 /-- the standard-library functions on the translated paths and what stands for each -/
 theorem externs_accounted : dnsLoopExterns =
